@@ -232,6 +232,10 @@ pub fn run(args: &Args) -> i32 {
                         return;
                     }
                 }
+                // The known reset race shows up as IncompleteFrame for one caller and, as a consequence
+                // (the frame's handle is left ErrTaken), as FailedReference for others of the same batch:
+                // when the primary symptom is present, the batch is reported under its signature.
+                let primary_seen = results.lock().unwrap().iter().any(|(k, r)| matches!((r, &base[*k]), (Err(e), Ok(_)) if e.contains("frame data is incomplete")));
                 for (k, r) in results.lock().unwrap().iter() {
                     match (r, &base[*k]) {
                         (Ok(p), Ok(q)) => {
@@ -243,7 +247,7 @@ pub fn run(args: &Args) -> i32 {
                         (Err(_), Err(_)) => {}
                         (Err(e), Ok(_)) => {
                             // a known race (C20 known finding) can give a spurious IncompleteFrame
-                            let sig = if e.contains("frame data is incomplete") { "spurious-error:IncompleteFrame" } else { "concurrent-class-differs" };
+                            let sig = if e.contains("frame data is incomplete") || (primary_seen && e.contains("reference frame failed to render")) { "spurious-error:IncompleteFrame" } else { "concurrent-class-differs" };
                             case.violation(sig, format!("keyframe {k}: concurrent caller got Err({e}) but the single-thread render succeeds [{desc}]"));
                             return;
                         }
